@@ -39,8 +39,9 @@ func (v *Vue) evaluate(ctx VueContext, nodes []*html.Node, depth int) ([]*html.N
 			tag := node.Data
 
 			// Check for v-once early - skip if already rendered
-			// (an element that also carries v-for is checked per iteration, on its clones)
-			if helpers.HasAttr(node, "v-once") && !helpers.HasAttr(node, "v-for") {
+			// (an element that also carries v-for is checked per iteration, on its clones; a member of a
+			// v-if chain, the head included, is checked when the chain selects it - see evalElseIfChain)
+			if helpers.HasAttr(node, "v-once") && !helpers.HasAttr(node, "v-for") && !isChainMember(node) {
 				vSeenID := helpers.GetAttr(node, "v-once-id")
 				if ctx.seen[vSeenID] {
 					// This v-once element has already been rendered, skip it
